@@ -376,6 +376,11 @@ FLOORS = {"nontrivial document": ("uncorrupted", 0.15), "document reuses a neste
 
 def plan(tier, seed):
     q = tier == "quick"
-    tasks = [("corruptions", {"examples": 20 if q else 400, "per_op": 6 if q else 0}) for _ in range(12)]
-    tasks += [("mutated", {"examples": 150 if q else 4000}) for _ in range(4)]
+    if q:
+        tasks = [("corruptions", {"examples": 20, "per_op": 6}) for _ in range(12)]
+        tasks += [("mutated", {"examples": 150}) for _ in range(4)]
+    else:
+        # every applicable corruption of every document: about an hour on 16 cores
+        tasks = [("corruptions", {"examples": 300, "per_op": 0}) for _ in range(16)]
+        tasks += [("mutated", {"examples": 4000}) for _ in range(4)]
     return tasks
